@@ -369,4 +369,177 @@ theorem parse_complete (db : CodecDB) (given : Option Bytes) {b : Bytes} {cat : 
   | true =>
     simp only [parse, hsl, magicOf, if_true, (Ne.symm magic_ne), if_false]; exact hbody
 
+/-! ### closedness: no Python partial operation of the source can fail -/
+
+theorem decOpt_cases (db : CodecDB) (enc : Bytes) (o : Option Bytes) :
+    (∃ t, decOpt db enc o = .ok t) ∨ decOpt db enc o = .error .decode := by
+  cases o with
+  | none => left; exact ⟨none, rfl⟩
+  | some x =>
+    rcases dec_cases db enc x with ⟨t, ht⟩ | ht
+    · left; exact ⟨some t, by simp only [decOpt, ht]⟩
+    · right; simp only [decOpt, ht]
+
+theorem decodeEntry_cases (db : CodecDB) (enc : Bytes) (e : CatEntry) :
+    (∃ d, decodeEntry db enc e = .ok d) ∨ decodeEntry db enc e = .error .decode := by
+  obtain ⟨ctxt, msgid, plural, forms⟩ := e
+  rcases decOpt_cases db enc ctxt with ⟨c, hc⟩ | hc
+  · rcases dec_cases db enc msgid with ⟨m, hm⟩ | hm
+    · cases plural with
+      | none =>
+        rcases dec_cases db enc (CatEntry.value ⟨ctxt, msgid, none, forms⟩) with ⟨v, hv⟩ | hv
+        · left; exact ⟨⟨m, c, .singular v⟩, by simp only [decodeEntry, hc, hm, hv]⟩
+        · right; simp only [decodeEntry, hc, hm, hv]
+      | some p =>
+        rcases dec_cases db enc p with ⟨q, hq⟩ | hq
+        · rcases decAll_cases db enc forms with ⟨fs, hf⟩ | hf
+          · left; exact ⟨⟨m, c, .plural q fs⟩, by simp only [decodeEntry, hc, hm, hq, hf]⟩
+          · right; simp only [decodeEntry, hc, hm, hq, hf]
+        · right; simp only [decodeEntry, hc, hm, hq]
+    · right; simp only [decodeEntry, hc, hm]
+  · right; simp only [decodeEntry, hc]
+
+/-- the invariant of the loop: after the first entry both `self._encoding` and `self._last_msgid` are set -/
+def St.Ready (st : St) (i : Nat) : Prop := i = 0 ∨ (∃ l, st.last = some l) ∧ (∃ enc, st.encoding = some enc)
+
+theorem entryResult_closed (db : CodecDB) (e : CatEntry) (st : St) (i : Nat) (h : st.Ready i) :
+    (∃ x, entryResult db e st i = .error (.syntax x)) ∨ entryResult db e st i = .error .decode ∨
+    (∃ d st', entryResult db e st i = .ok (d, st') ∧ st'.Ready (i + 1) ∧ st'.last = some e.key0 ∧
+      (∀ l, i ≠ 0 → st.last = some l → ¬ e.key0 < l)) := by
+  by_cases hi : i = 0
+  · simp only [entryResult, hi, if_true]
+    rcases decodeEntry_cases db (selectEncoding db st.encoding e.key0 e.value) (swapCtxt e) with ⟨d, hd⟩ | hd
+    · right; right
+      exact ⟨d, ⟨some (selectEncoding db st.encoding e.key0 e.value), some e.key0⟩, by simp only [hd], Or.inr ⟨⟨_, rfl⟩, ⟨_, rfl⟩⟩, rfl, fun _ h => absurd rfl h⟩
+    · right; left; simp only [hd]
+  · rcases h with h | ⟨⟨l, hl⟩, ⟨enc, henc⟩⟩
+    · exact absurd h hi
+    · simp only [entryResult, hi, if_false, hl, henc]
+      cases hb : bytesLt e.key0 l with
+      | true => left; exact ⟨.notSorted, by simp⟩
+      | false =>
+        have hnlt : ¬ e.key0 < l := fun hlt => by rw [(bytesLt_iff _ _).2 hlt] at hb; cases hb
+        rcases decodeEntry_cases db enc (swapCtxt e) with ⟨d, hd⟩ | hd
+        · right; right
+          refine ⟨d, ⟨some enc, some e.key0⟩, by simp [hd], Or.inr ⟨⟨_, rfl⟩, ⟨_, rfl⟩⟩, rfl, ?_⟩
+          intro l' _ hl'; cases hl'; exact hnlt
+        · right; left; simp [hd]
+
+/-! ### the loop and the whole parser: soundness and closedness -/
+
+theorem loop_sound (db : CodecDB) {be : Bool} {b : Bytes} {ko to : Nat} :
+    ∀ (n i : Nat) (st : St), st.Ready i →
+      (∃ x, loop db be b ko to n i st = .error (.syntax x)) ∨ loop db be b ko to n i st = .error .decode ∨
+      (∃ es cat, loop db be b ko to n i st = .ok es ∧ cat.length = n ∧ EntriesAt be b ko to i cat ∧ (∀ e ∈ cat, e.WF) ∧
+        (i = 0 → Sorted (cat.map CatEntry.key0)) ∧
+        (∀ l, i ≠ 0 → st.last = some l → Sorted (l :: cat.map CatEntry.key0))) := by
+  intro n
+  induction n with
+  | zero =>
+    intro i st _
+    right; right
+    exact ⟨[], [], rfl, rfl, trivial, by simp, fun _ => trivial, fun _ _ _ => trivial⟩
+  | succ n ih =>
+    intro i st hst
+    rcases parseEntry_cases db be b st i (ko + 8 * i) (to + 8 * i) with ⟨x, hx⟩ | ⟨e, hwf, hk, hv⟩
+    · left; exact ⟨x, by simp only [loop, hx]⟩
+    · have hspec := parseEntry_spec db hk hv hwf st i
+      rcases entryResult_closed db e st i hst with ⟨x, hx⟩ | hx | ⟨d, st', hok, hready, hlast, hsorted⟩
+      · left; exact ⟨x, by simp only [loop, hspec, hx]⟩
+      · right; left; simp only [loop, hspec, hx]
+      · rcases ih (i + 1) st' hready with ⟨x, hx⟩ | hx | ⟨es, cat, hes, hlen, hE, hwfs, _, hs⟩
+        · left; exact ⟨x, by simp only [loop, hspec, hok, hx]⟩
+        · right; left; simp only [loop, hspec, hok, hx]
+        · right; right
+          have hs' := hs e.key0 (by omega) hlast
+          refine ⟨d :: es, e :: cat, by simp only [loop, hspec, hok, hes], by simp [hlen], ⟨hk, hv, hE⟩, ?_, ?_, ?_⟩
+          · intro x hx; rcases List.mem_cons.1 hx with hx | hx
+            · subst hx; exact hwf
+            · exact hwfs x hx
+          · intro _; exact hs'
+          · intro l hi hl; exact ⟨hsorted l hi hl, hs'⟩
+
+def hiddenStep (be : Bool) (b : Bytes) (minor : Nat) : Except Err Bool :=
+  if minor > 1 then .ok true
+  else if minor = 1 then
+    match read1 be b 36 with
+    | .error e => .error e
+    | .ok nSysdep => .ok (decide (nSysdep > 0))
+  else .ok false
+
+theorem hiddenStep_cases (be : Bool) (b : Bytes) (minor : Nat) :
+    hiddenStep be b minor = .error (.syntax .truncated) ∨
+    ∃ h, hiddenStep be b minor = .ok h ∧ HiddenFlag be b minor h := by
+  unfold hiddenStep HiddenFlag
+  by_cases h1 : minor > 1
+  · right; exact ⟨true, by simp [h1]⟩
+  · by_cases h2 : minor = 1
+    · subst h2
+      rcases read1_cases be b 36 with ⟨_, hr⟩ | ⟨ns, hw, hr⟩
+      · left; simp [hr]
+      · right; exact ⟨decide (ns > 0), by simp [hr], ⟨ns, hw, rfl⟩⟩
+    · right; exact ⟨false, by simp [h1, h2]⟩
+
+theorem parseBody_eq (db : CodecDB) (given : Option Bytes) (b : Bytes) (be : Bool) :
+    parseBody db given b be =
+      match read1 be b 4 with
+      | .error e => .error e
+      | .ok revision =>
+        if revision / 65536 > 1 then .error (.syntax (.major (revision / 65536))) else
+        match read1 be b 8 with
+        | .error e => .error e
+        | .ok nStrings =>
+          match hiddenStep be b (revision % 65536) with
+          | .error e => .error e
+          | .ok possibleHiddenStrings =>
+            match read2 be b 12 with
+            | .error e => .error e
+            | .ok (msgidOffset, msgstrOffset) =>
+              match loop db be b msgidOffset msgstrOffset nStrings 0 ⟨given, none⟩ with
+              | .error e => .error e
+              | .ok entries => .ok ⟨entries, possibleHiddenStrings⟩ := by
+  rfl
+
+theorem parseBody_cases (db : CodecDB) (given : Option Bytes) (b : Bytes) (be : Bool) (hm : Slice b 0 (magicOf be)) :
+    (∃ x, parseBody db given b be = .error (.syntax x)) ∨ parseBody db given b be = .error .decode ∨
+    (∃ f cat, parseBody db given b be = .ok f ∧ Encodes b cat f.possibleHiddenStrings ∧ ∀ e ∈ cat, e.WF) := by
+  rw [parseBody_eq]
+  rcases read1_cases be b 4 with ⟨_, hr⟩ | ⟨rev, hrev, hr⟩
+  · left; exact ⟨.truncated, by simp only [hr]⟩
+  by_cases hmaj : rev / 65536 > 1
+  · left; exact ⟨.major (rev / 65536), by simp only [hr, hmaj, if_true]⟩
+  rcases read1_cases be b 8 with ⟨_, hr8⟩ | ⟨n, hn, hr8⟩
+  · left; exact ⟨.truncated, by simp only [hr, hmaj, if_false, hr8]⟩
+  rcases hiddenStep_cases be b (rev % 65536) with hh | ⟨hid, hh, hflag⟩
+  · left; exact ⟨.truncated, by simp only [hr, hmaj, if_false, hr8, hh]⟩
+  rcases read2_cases be b 12 with ⟨_, hr12⟩ | ⟨ko, to, hko, hto, hr12⟩
+  · left; exact ⟨.truncated, by simp only [hr, hmaj, if_false, hr8, hh, hr12]⟩
+  rcases loop_sound db (be := be) (b := b) (ko := ko) (to := to) n 0 ⟨given, none⟩ (Or.inl rfl) with
+    ⟨x, hx⟩ | hx | ⟨es, cat, hes, hlen, hE, hwf, hs, _⟩
+  · left; exact ⟨x, by simp only [hr, hmaj, if_false, hr8, hh, hr12, hx]⟩
+  · right; left; simp only [hr, hmaj, if_false, hr8, hh, hr12, hx]
+  · right; right
+    refine ⟨⟨es, hid⟩, cat, by simp only [hr, hmaj, if_false, hr8, hh, hr12, hes], ?_, hwf⟩
+    refine ⟨be, rev / 65536, rev % 65536, ko, to, hm, ?_, by omega, by omega, by rw [hlen]; exact hn, hflag, hko, hto, hE, hs rfl⟩
+    have : rev / 65536 * 65536 + rev % 65536 = rev := by omega
+    rw [this]; exact hrev
+
+theorem Slice_magic_of_slice {b m : Bytes} (h : slice b 0 4 = m) : Slice b 0 m := by
+  rw [Slice.prefix_iff, ← h]
+  simp only [slice, List.drop_zero]
+  exact List.take_prefix 4 b
+
+/-- **soundness and closedness**: every outcome of the parser -/
+theorem parse_cases (db : CodecDB) (given : Option Bytes) (b : Bytes) :
+    (∃ x, parse db given b = .error (.syntax x)) ∨ parse db given b = .error .decode ∨
+    (∃ f cat, parse db given b = .ok f ∧ Encodes b cat f.possibleHiddenStrings ∧ ∀ e ∈ cat, e.WF) := by
+  unfold parse
+  by_cases h1 : slice b 0 4 = leMagic
+  · simp only [h1, if_true]
+    exact parseBody_cases db given b false (Slice_magic_of_slice h1)
+  · by_cases h2 : slice b 0 4 = beMagic
+    · simp only [h2, (Ne.symm magic_ne), if_false, if_true]
+      exact parseBody_cases db given b true (Slice_magic_of_slice h2)
+    · left; exact ⟨.magic, by simp only [h1, h2, if_false]⟩
+
 end I18n.Mo
